@@ -33,15 +33,17 @@ Theorem C12_normal_endings : forall g,
     | ExitOther => FError PSysExitOther
     | RaiseUnsendable | ReturnUnsendable => FError (POSErr (-1))
     | HardExit n => if (- n =? 15)%Z then FResult PNone else FError (POSErr (- n))
+    | ReturnUnloadable e => FError (PExc e)
     end.
 Proof. exact normal_endings. Qed.
 Print Assumptions C12_normal_endings.
 
-(* a child that ends by itself without having delivered its outcome - it raised or returned something that cannot be
-   pickled, or called os._exit - is reported as an error through the future, never as a normal return of None *)
+(* a child that ends by itself without having delivered an outcome the parent can use - it raised or returned something
+   that cannot be pickled, returned something that cannot be unpickled, or called os._exit - is reported as an error
+   through the future, never as a normal return of None (and the future is resolved: C12_future_always_resolved) *)
 Theorem C12_silent_child_failure_is_error : forall g,
   kill g = NoKill -> sendable (how g) = false -> (forall n, how g = HardExit n -> n <> (-15)%Z) ->
-  exists c, parent_future g = FError (POSErr c).
+  exists c, parent_future g = FError c.
 Proof. exact silent_child_failure_is_error. Qed.
 Print Assumptions C12_silent_child_failure_is_error.
 
